@@ -711,7 +711,13 @@ class Interp(object):
         c.memo[key] = (a, k)
         c.forced.append(('trunc', str(a)[:60], k))
         return k
-    raise HarnessError('float->int cast of a symbolic value is not forced by the case assumption')
+    # not forced: split the case on the truncation interval of some feasible value
+    if s.check() == z3.sat:
+      v = sym.z3_to_py(s.model().eval(a, model_completion=True))
+      k = int(v)  # toward zero
+      cond = z3.And(a >= k, a < k + 1) if v >= 0 else z3.And(a > k - 1, a <= k)
+      raise sym.NeedSplit(cond, 'float->int cast of %s' % str(a)[:40])
+    raise HarnessError('float->int cast of a symbolic value under infeasible assumptions')
 
   def op_StridedSlice(self, op, v):
     x, b, e, s = v
@@ -804,7 +810,7 @@ class Interp(object):
       raise HarnessError('GatherV2 with symbolic indices')
     ii = np.asarray(idx, dtype=object).astype(int)
     if (ii < 0).any() or (ii >= params.shape[ax]).any():
-      raise HarnessError('GatherV2 index out of range')
+      raise sym.Undefined('GatherV2 index out of range: %s not in [0,%d)' % (ii.reshape(-1).tolist()[:8], params.shape[ax]))
     if bd == 0:
       return [np.take(params, ii, axis=ax)]
     if bd < 0:
@@ -897,7 +903,7 @@ class Interp(object):
       s.pop()
       if r == z3.unsat:
         return False
-      raise HarnessError('sort order of symbolic values is not forced by the case assumption')
+      raise sym.NeedSplit(cond, 'sort order of positions %d,%d' % (i, j))
     import functools
     order = sorted(range(n), key=functools.cmp_to_key(lambda i, j: -1 if before(i, j) else 1))
     c.forced.append(('sort', order))
